@@ -7,6 +7,8 @@ import (
 	"go/types"
 	"sort"
 	"strings"
+
+	"golang.org/x/tools/go/cfg"
 )
 
 // R12.6: the operator tables of the type checker agree with the operand classes of the Go
@@ -245,4 +247,373 @@ func c12R6(ic *IC, r *Report) {
 	if nTables < 2 {
 		r.Errorf("R12.6: %d operator predicate tables found (binaryOpPredicates and unaryOpPredicates expected)", nTables)
 	}
+}
+
+// R12.7: two distinct named types are assignable to one another only if they have the same
+// underlying type AND one is defined from the other (yaegi's approximation of "identical
+// underlying types and at least one is not a named type"). Decided on the flow graph of
+// (*itype).assignableTo pruned under each assumption: (A1) both operands named, not equal,
+// underlying types differ; (A2) both named, not equal, neither defined from the other. Under
+// either, no `return true` (and no delegation to reflect's AssignableTo, which knows nothing
+// of named interpreter types) may be reachable.
+func c12R7(ic *IC, r *Report) {
+	fi := ic.fn(r, "itype.assignableTo")
+	if fi == nil {
+		return
+	}
+	info := ic.Info
+	isLinkedCmp := func(be *ast.BinaryExpr) bool {
+		se, ok := unparen(be.X).(*ast.SelectorExpr)
+		if !ok || se.Sel.Name != "cat" {
+			return false
+		}
+		id, ok := unparen(be.Y).(*ast.Ident)
+		return ok && id.Name == "linkedT"
+	}
+	isUnderlyingID := func(e ast.Expr) bool {
+		c, ok := unparen(e).(*ast.CallExpr)
+		if !ok {
+			return false
+		}
+		se, ok := unparen(c.Fun).(*ast.SelectorExpr)
+		if !ok || se.Sel.Name != "id" {
+			return false
+		}
+		inner, ok := unparen(se.X).(*ast.CallExpr)
+		if !ok {
+			return false
+		}
+		se2, ok := unparen(inner.Fun).(*ast.SelectorExpr)
+		return ok && se2.Sel.Name == "underlying"
+	}
+	mkAtom := func(underDiffer, defined int) func(ast.Expr) int {
+		return func(e ast.Expr) int {
+			switch x := e.(type) {
+			case *ast.BinaryExpr:
+				if (x.Op == token.EQL || x.Op == token.NEQ) && isLinkedCmp(x) {
+					if x.Op == token.EQL {
+						return triTrue
+					}
+					return triFalse
+				}
+				if (x.Op == token.EQL || x.Op == token.NEQ) && isUnderlyingID(x.X) && isUnderlyingID(x.Y) {
+					if underDiffer == triUnknown {
+						return triUnknown
+					}
+					if x.Op == token.NEQ {
+						return underDiffer
+					}
+					return 1 - underDiffer
+				}
+			case *ast.CallExpr:
+				if isCallTo(info, x, "interp.typeDefined") {
+					return defined
+				}
+				if isCallTo(info, x, "interp.itype.equals") {
+					return triFalse
+				}
+				if isCallTo(info, x, "interp.itype.isNil", "interp.itype.hasNil") {
+					return triFalse // named non-nil operands
+				}
+			}
+			return triUnknown
+		}
+	}
+	g := cfg.New(fi.Decl.Body, func(c *ast.CallExpr) bool { return !noReturn(info, c) })
+	run := func(label string, atom func(ast.Expr) int) []string {
+		var bad []string
+		seen := map[*cfg.Block]bool{}
+		var walk func(b *cfg.Block)
+		walk = func(b *cfg.Block) {
+			if seen[b] {
+				return
+			}
+			seen[b] = true
+			for _, n := range b.Nodes {
+				if rs, ok := n.(*ast.ReturnStmt); ok && len(rs.Results) == 1 {
+					if types.ExprString(rs.Results[0]) != "false" {
+						bad = append(bad, "return "+types.ExprString(rs.Results[0])+" at "+ic.pos(rs.Pos()))
+					}
+					return
+				}
+			}
+			if len(b.Succs) == 2 && len(b.Nodes) > 0 {
+				if cond, ok := b.Nodes[len(b.Nodes)-1].(ast.Expr); ok {
+					switch evalCond(cond, atom) {
+					case triTrue:
+						walk(b.Succs[0])
+						return
+					case triFalse:
+						walk(b.Succs[1])
+						return
+					}
+				}
+			}
+			for _, s := range b.Succs {
+				walk(s)
+			}
+		}
+		if len(g.Blocks) > 0 {
+			walk(g.Blocks[0])
+		}
+		return bad
+	}
+	for _, a := range []struct {
+		key, what string
+		atom      func(ast.Expr) int
+	}{
+		{"distinct-underlying", "two distinct named types whose underlying types differ", mkAtom(triTrue, triUnknown)},
+		{"not-defined-from-each-other", "two distinct named types neither of which is defined from the other (type A int; type B int)", mkAtom(triUnknown, triFalse)},
+	} {
+		bad := run(a.key, a.atom)
+		r.Check(len(bad) == 0, "R12.7", "assignableTo/named-types/"+a.key, ic.pos(fi.Decl.Pos()), "never assignable: every path ends in return false",
+			"for "+a.what+", (*itype).assignableTo can reach "+strings.Join(dedupStr(bad), ", ")+": the two types are used interchangeably (var b B = a compiles and runs) although the Go specification rejects the program")
+	}
+}
+
+// evalBoolFunc evaluates a small boolean helper three-valued: a sequence of
+// `if C { return E }` statements and local definitions followed by `return E`.
+func evalBoolFunc(body *ast.BlockStmt, atom func(ast.Expr) int) int {
+	for _, st := range body.List {
+		switch x := st.(type) {
+		case *ast.IfStmt:
+			if x.Init != nil || x.Else != nil || len(x.Body.List) != 1 {
+				return triUnknown
+			}
+			rs, ok := x.Body.List[0].(*ast.ReturnStmt)
+			if !ok || len(rs.Results) != 1 {
+				return triUnknown
+			}
+			switch evalCond(x.Cond, atom) {
+			case triTrue:
+				return evalCond(rs.Results[0], atom)
+			case triFalse:
+				continue
+			default:
+				return triUnknown
+			}
+		case *ast.AssignStmt, *ast.DeclStmt:
+			continue
+		case *ast.ReturnStmt:
+			if len(x.Results) != 1 {
+				return triUnknown
+			}
+			return evalCond(x.Results[0], atom)
+		default:
+			return triUnknown
+		}
+	}
+	return triUnknown
+}
+
+// R12.8: len and cap. The Go specification accepts for len: string, array, pointer to array,
+// slice, map, channel; for cap: array, pointer to array, slice, channel. (a) the kind cases of
+// the builtin check list exactly those kinds, string and map under a test that the builtin is
+// len; (b) the helper that looks through a pointer argument does so only for pointers to
+// arrays: under the assumption "the argument is a pointer to a slice" every reachable return
+// of arrayDeref returns its argument unchanged.
+func c12R8(ic *IC, r *Report) {
+	info := ic.Info
+	bfi := ic.fn(r, "typecheck.builtin")
+	dfi := ic.fn(r, "arrayDeref")
+	if bfi == nil || dfi == nil {
+		return
+	}
+	// (a)
+	var lenCase *ast.CaseClause
+	ast.Inspect(bfi.Decl.Body, func(n ast.Node) bool {
+		if cc, ok := n.(*ast.CaseClause); ok {
+			names := map[string]bool{}
+			for _, e := range cc.List {
+				if id, ok := unparen(e).(*ast.Ident); ok {
+					names[id.Name] = true
+				}
+			}
+			if names["bltnLen"] && names["bltnCap"] {
+				lenCase = cc
+			}
+		}
+		return true
+	})
+	if lenCase == nil {
+		r.Errorf("R12.8: the case of len/cap was not found in typecheck.builtin")
+	} else {
+		both, lenOnly := map[string]bool{}, map[string]bool{}
+		ast.Inspect(lenCase, func(n ast.Node) bool {
+			cc, ok := n.(*ast.CaseClause)
+			if !ok || cc == lenCase {
+				return true
+			}
+			var kinds []string
+			for _, e := range cc.List {
+				if se, ok := unparen(e).(*ast.SelectorExpr); ok {
+					if c, ok := info.Uses[se.Sel].(*types.Const); ok && c.Pkg() != nil && c.Pkg().Path() == "reflect" {
+						kinds = append(kinds, c.Name())
+					}
+				}
+			}
+			if len(kinds) == 0 {
+				return true
+			}
+			// ok = true  /  ok = name == bltnLen
+			onlyLen := false
+			uncond := false
+			for _, st := range cc.Body {
+				if as, ok := st.(*ast.AssignStmt); ok && len(as.Rhs) == 1 {
+					switch v := unparen(as.Rhs[0]).(type) {
+					case *ast.Ident:
+						if v.Name == "true" {
+							uncond = true
+						}
+					case *ast.BinaryExpr:
+						if v.Op == token.EQL && (types.ExprString(v.Y) == "bltnLen" || types.ExprString(v.X) == "bltnLen") {
+							onlyLen = true
+						}
+					}
+				}
+			}
+			for _, k := range kinds {
+				if uncond {
+					both[k] = true
+				} else if onlyLen {
+					lenOnly[k] = true
+				}
+			}
+			return true
+		})
+		wantBoth := map[string]bool{"Array": true, "Slice": true, "Chan": true}
+		wantLen := map[string]bool{"String": true, "Map": true}
+		same := func(a, b map[string]bool) bool {
+			if len(a) != len(b) {
+				return false
+			}
+			for k := range a {
+				if !b[k] {
+					return false
+				}
+			}
+			return true
+		}
+		r.Check(same(both, wantBoth) && same(lenOnly, wantLen), "R12.8", "builtin/len-cap/argument-kinds", ic.pos(lenCase.Pos()), "len: string, array, slice, map, chan; cap: array, slice, chan",
+			fmt.Sprintf("the check of len/cap accepts for both builtins the kinds %s and for len only %s; the Go specification gives Array Chan Slice and Map String: an invalid call such as cap(m) of a map is compiled and fails at run time, or a valid one is rejected", joinSorted(both), joinSorted(lenOnly)))
+	}
+	// (b)
+	var param types.Object
+	if len(dfi.Decl.Type.Params.List) > 0 && len(dfi.Decl.Type.Params.List[0].Names) > 0 {
+		param = info.ObjectOf(dfi.Decl.Type.Params.List[0].Names[0])
+	}
+	depth := 0
+	var atom func(e ast.Expr) int
+	atom = func(e ast.Expr) int {
+		switch x := e.(type) {
+		case *ast.BinaryExpr:
+			if x.Op != token.EQL && x.Op != token.NEQ {
+				return triUnknown
+			}
+			res := triUnknown
+			switch types.ExprString(x.Y) {
+			case "reflect.Array", "arrayT":
+				res = triFalse
+			case "reflect.Slice", "sliceT":
+				// the pointee is a slice; the pointer itself is not
+				if strings.Contains(types.ExprString(x.X), "Elem") || strings.Contains(types.ExprString(x.X), ".val") || strings.Contains(types.ExprString(x.X), "elem") {
+					res = triTrue
+				} else if id, ok := unparen(x.X).(*ast.Ident); ok && id.Name == "k" {
+					res = triTrue
+				}
+			case "reflect.Ptr", "reflect.Pointer", "ptrT":
+				if !strings.Contains(types.ExprString(x.X), "Elem") && !strings.Contains(types.ExprString(x.X), ".val.") {
+					// either representation of the pointer may be the one at hand
+					res = triUnknown
+				}
+			case "nilT":
+				res = triFalse
+			}
+			if res != triUnknown && x.Op == token.NEQ {
+				res = 1 - res
+			}
+			return res
+		case *ast.CallExpr:
+			f, ok := calleeOf(info, x).(*types.Func)
+			if !ok || f.Pkg() != ic.Pk.Types || depth > 1 {
+				return triUnknown
+			}
+			if d := ic.G.Funcs[f]; d != nil && d.Decl.Body != nil && types.Identical(f.Type().(*types.Signature).Results().At(0).Type(), types.Typ[types.Bool]) {
+				// the argument tells whether the helper looks at the pointer or at the pointee
+				pointee := len(x.Args) == 1 && (strings.Contains(types.ExprString(x.Args[0]), "elem") || strings.Contains(types.ExprString(x.Args[0]), "Elem") || strings.Contains(types.ExprString(x.Args[0]), ".val"))
+				inner := func(e2 ast.Expr) int {
+					be, ok := e2.(*ast.BinaryExpr)
+					if !ok || (be.Op != token.EQL && be.Op != token.NEQ) {
+						return triUnknown
+					}
+					res := triUnknown
+					switch types.ExprString(be.Y) {
+					case "reflect.Array", "arrayT":
+						res = triFalse
+					case "reflect.Slice", "sliceT":
+						if pointee {
+							res = triTrue
+						} else {
+							res = triFalse
+						}
+					case "reflect.Ptr", "ptrT":
+						if pointee {
+							res = triFalse
+						} else {
+							res = triTrue
+						}
+					case "nilT":
+						res = triFalse
+					}
+					if res != triUnknown && be.Op == token.NEQ {
+						res = 1 - res
+					}
+					return res
+				}
+				depth++
+				v := evalBoolFunc(d.Decl.Body, inner)
+				depth--
+				return v
+			}
+		}
+		return triUnknown
+	}
+	g := cfg.New(dfi.Decl.Body, func(c *ast.CallExpr) bool { return !noReturn(info, c) })
+	var bad []string
+	seen := map[*cfg.Block]bool{}
+	var walk func(b *cfg.Block)
+	walk = func(b *cfg.Block) {
+		if seen[b] {
+			return
+		}
+		seen[b] = true
+		for _, n := range b.Nodes {
+			if rs, ok := n.(*ast.ReturnStmt); ok && len(rs.Results) == 1 {
+				if id, ok := unparen(rs.Results[0]).(*ast.Ident); !ok || info.ObjectOf(id) != param {
+					bad = append(bad, "return "+types.ExprString(rs.Results[0])+" at "+ic.pos(rs.Pos()))
+				}
+				return
+			}
+		}
+		if len(b.Succs) == 2 && len(b.Nodes) > 0 {
+			if cond, ok := b.Nodes[len(b.Nodes)-1].(ast.Expr); ok {
+				switch evalCond(cond, atom) {
+				case triTrue:
+					walk(b.Succs[0])
+					return
+				case triFalse:
+					walk(b.Succs[1])
+					return
+				}
+			}
+		}
+		for _, s := range b.Succs {
+			walk(s)
+		}
+	}
+	if len(g.Blocks) > 0 {
+		walk(g.Blocks[0])
+	}
+	r.Check(len(bad) == 0, "R12.8", "arrayDeref/only-pointers-to-arrays", ic.pos(dfi.Decl.Pos()), "a pointer to a slice is not looked through",
+		"for a pointer to a slice arrayDeref can reach "+strings.Join(dedupStr(bad), ", ")+": len(p) and cap(p) with p of type *[]T are accepted by the type checker (only pointers to arrays may be looked through) and fail or misbehave at run time")
 }
